@@ -13,6 +13,7 @@ import (
 	"github.com/metal-toolbox/auditevent"
 	"github.com/prometheus/client_golang/prometheus"
 
+	"github.com/metal-toolbox/audito-maldito/ingesters/auditlog"
 	"github.com/metal-toolbox/audito-maldito/ingesters/namedpipe"
 	"github.com/metal-toolbox/audito-maldito/ingesters/syslog"
 	"github.com/metal-toolbox/audito-maldito/internal/common"
@@ -30,10 +31,12 @@ func init() {
 		Families: []family{
 			{Name: "sshd-pipe-vs-direct", Fn: scnC07Sshd, Weight: 3, Group: len(sshdForms)},
 			{Name: "audit-line-terminator", Fn: scnC07Audit, Weight: 1},
+			{Name: "audit-pipe-vs-direct", Fn: scnC07AuditPipe, Weight: 1},
 		},
 		Rule: "every one of the 22 generated message shapes (20 forms; the accepted public-key form in its three branches) with generated fields is processed twice by fresh processors: directly as (pid, message), and as '<pid><padding><message>\\n' " +
 			"written in taped chunks to a simulated FIFO read by the real syslog ingester (plus once at callback level); events (all fields but the timestamp) and forwarded logins must agree; " +
-			"audit record groups are parsed and coalesced with and without the trailing newline; the form is enumerated within each group of runs; " +
+			"audit record groups are parsed and coalesced with and without the trailing newline; the records of generated sessions are written in taped chunks to a simulated FIFO read by the real audit-log ingester " +
+			"(read-buffer size, hand-over buffer and consumer pace taped; the consumer keeps what it was handed, as the reassembler does) and every record handed over must, when all have arrived, still parse to the message its line parses to directly; the form is enumerated within each group of runs; " +
 			"non-trivial = the direct path produced at least one event; distinct = distinct (message, padding, chunking, schedule hash)",
 		Quick: 22 * 300, Thorough: 22 * 10000,
 	})
@@ -172,9 +175,11 @@ func scnC07Sshd(rc *RunCtx) {
 	pp := &Pipeline{rc: rc}
 	rc.Sim.Spawn("world.sshd", func() {
 		w := pipe.OpenWriter()
+		pauses := 0
 		for i, ch := range pp.chunks([]byte(line)) {
 			simrt.Point("world.chunk")
-			if i > 0 && rc.Sim.Tape.ChooseBiased(3, "chunk.pause") == 1 {
+			if i > 0 && pauses < 4 && rc.Sim.Tape.ChooseBiased(3, "chunk.pause") == 1 {
+				pauses++
 				// a slow writer: the rest of the record arrives seconds later
 				simrt.Sleep(time.Duration(200+rc.Sim.Tape.Choose(3000, "chunk.pause.ms"))*time.Millisecond, "world.chunk.pause")
 			}
@@ -185,8 +190,8 @@ func scnC07Sshd(rc *RunCtx) {
 	})
 	pipelinePolicy(rc)
 	ok := false
-	for i := 0; i < 200; i++ {
-		if why := rc.Sim.RunUntil(func() bool { return res.v }, 100000); why == "stop" {
+	for i := 0; i < 300; i++ {
+		if why := rc.Sim.RunUntil(func() bool { return res.v }, 400000); why == "stop" {
 			ok = true
 			break
 		} else if why == "budget" {
@@ -264,5 +269,126 @@ func scnC07Audit(rc *RunCtx) {
 		rc.Fail("C07", "audit-newline-parse-error", "audit record parses without but not with its trailing newline: %v", err2)
 	case plain != nl:
 		rc.Fail("C07", "audit-newline-differs", "audit record group parses to different events with and without the trailing newline:\nwith:    %s\nwithout: %s", truncate(nl, 1500), truncate(plain, 1500))
+	}
+}
+
+type lineBox struct{ got []string }
+
+//go:norace
+func (b *lineBox) add(s string) { b.got = append(b.got, s) }
+
+// scnC07AuditPipe: the audit records of a few generated sessions go through a simulated FIFO and
+// the real audit-log ingester; the consumer of the hand-over channel keeps every record it was
+// handed (the daemon's consumer does: the reassembler holds the parsed records of a group until
+// the group is complete) and compares them with the lines written only after the last arrived.
+func scnC07AuditPipe(rc *RunCtx) {
+	t := rc.Spec
+	k := NewKaudit()
+	var lines []string
+	nses := 1 + t.Choose(4, "nses")
+	for i := 0; i < nses; i++ {
+		ses := fmt.Sprint(300 + i*7)
+		s := GenSession(t, k, ses, 4000+i*11, 1000+i, 2+t.Choose(12, "maxactions"))
+		for _, e := range s.Events {
+			lines = append(lines, e.Lines...)
+		}
+	}
+	capacity := []int{10000, 1, 4, 32, 256}[t.Choose(5, "capacity")]
+	rc.Sim.Knobs["bufio"] = []int{4096, 128, 512, 1024}[t.Choose(4, "bufio")]
+	paceMs := []int{0, 0, 5, 50}[t.Choose(4, "pace")]
+	startLate := t.Choose(3, "late") == 1
+	ctx, cancel := context.WithCancel(context.Background())
+	rc.Cleanup(cancel)
+	path := "/sim/c07-audit-pipe"
+	pipe := rc.Sim.AddPipe(path)
+	ch := make(chan string, capacity)
+	ali := auditlog.NewAuditLogIngester(path, ch, namedpipe.NewNamedPipeIngester(nopLogger, health.NewHealth()))
+	res := &doneFlag{}
+	rc.Sim.Spawn("audit-ingest", func() { res.set(ali.Ingest(ctx)) })
+	box := &lineBox{}
+	cdone := &doneFlag{}
+	rc.Sim.Spawn("world.consumer", func() {
+		if startLate {
+			simrt.Sleep(2*time.Second, "world.consumer.late")
+		}
+		for len(box.got) < len(lines) {
+			c0, c1 := simrt.Recv(ch), simrt.Recv(ctx.Done())
+			if simrt.Select("world.consumer", false, c0, c1) != 0 {
+				break
+			}
+			box.add(c0.Val)
+			if paceMs > 0 && rc.Sim.Tape.Choose(3, "pace.now") == 0 {
+				simrt.Sleep(time.Duration(paceMs)*time.Millisecond, "world.consumer.pace")
+			}
+		}
+		cdone.set(nil)
+	})
+	pp := &Pipeline{rc: rc}
+	rc.Sim.Spawn("world.auditd", func() {
+		w := pipe.OpenWriter()
+		var all []byte
+		for _, l := range lines {
+			all = append(all, l...)
+			all = append(all, '\n')
+		}
+		// records are written in bursts: several records per write, cut at taped places
+		for len(all) > 0 {
+			n := 1 + rc.Sim.Tape.Choose(1500, "burst")
+			if n > len(all) {
+				n = len(all)
+			}
+			for _, c := range pp.chunks(all[:n]) {
+				simrt.Point("world.chunk")
+				w.Write(c)
+			}
+			all = all[n:]
+		}
+		simrt.Point("world.close")
+		w.Close()
+	})
+	pipelinePolicy(rc)
+	ok := false
+	for i := 0; i < 400; i++ {
+		why := rc.Sim.RunUntil(func() bool { return res.v && cdone.v }, 200000)
+		if why == "stop" {
+			ok = true
+			break
+		} else if why == "budget" {
+			break
+		}
+		time.Sleep(100 * time.Millisecond)
+	}
+	rc.CaseKey(hashStr(lines...), capacity, paceMs, startLate)
+	rc.R.NonTrivial = len(lines) > capacity || paceMs > 0 || startLate
+	rc.R.Sample = map[string]any{"records": len(lines), "handover_capacity": capacity, "read_buffer": rc.Sim.Knobs["bufio"], "consumer_pace_ms": paceMs, "consumer_late": startLate, "handed_over": len(box.got)}
+	if len(rc.Sim.Panics) > 0 {
+		rc.Fail("C07", "panic", "audit ingester panicked: %s", rc.Sim.Panics[0].Value)
+		return
+	}
+	if !ok {
+		rc.Abort("audit ingester / consumer did not finish: %v", rc.Sim.Live())
+		return
+	}
+	if len(box.got) != len(lines) {
+		rc.Fail("C07", "audit-pipe-record-count", "%d records were written to the audit pipe, %d were handed over", len(lines), len(box.got))
+		return
+	}
+	render := func(l string) string {
+		m, err := auparse.ParseLogLine(l)
+		if err != nil {
+			return "error: " + err.Error()
+		}
+		d, err := m.Data()
+		if err != nil {
+			return "data error: " + err.Error()
+		}
+		j, _ := json.Marshal(d)
+		return fmt.Sprintf("%s %d %d %s", m.RecordType, m.Timestamp.UnixNano(), m.Sequence, j)
+	}
+	for i, l := range lines {
+		if a, b := render(l), render(box.got[i]); a != b {
+			rc.Fail("C07", "audit-pipe-differs", "record %d of %d handed over by the audit ingester reads %q and parses to\n%s\nbut the record written was %q, which parses to\n%s", i, len(lines), truncate(box.got[i], 400), truncate(b, 600), truncate(l, 400), truncate(a, 600))
+			return
+		}
 	}
 }
